@@ -117,6 +117,18 @@ CHECKS = {
         "are outside the statement.",
         "DESIGN.md section 4, C07",
     ),
+    "C08": (
+        "Hypothesis generation of class models (return annotations over generics/inheritance/custom iterables/dataclass/registered "
+        "collection) and well-typed expressions; oracle = the generator's own type computation (substitution of type variables along "
+        "the declared bases + the statement's rules) compared with stream.item_type by ==",
+        "Randomised search over class models and expressions in the supported subset; after every stage the stream's item type must "
+        "equal the type implied by the annotations as computed independently by the generator (method return types with class type "
+        "variables substituted through generic and concrete subclasses and custom Iterable subclasses, Select/SelectMany/Where/"
+        "First/[0]/Count/len rules, comparison/and-or -> bool, int/float promotion, dict and dataclass fields); a filter whose "
+        "declared type is known and not bool must be refused with ValueError.",
+        "Skeleton of 11 classes with generated method annotations; typing.List, tuple element types and abs() are not asserted.",
+        "DESIGN.md section 4, C08",
+    ),
 }
 
 NOT_YET = "check not built yet in this round (work in progress; see DESIGN.md section 4 for the planned generator/oracle)"
